@@ -37,7 +37,7 @@ def colebrook_root(re, d_m, k_m):
     """Root of 1/sqrt(l) = -2 log10(2.51/(re sqrt(l)) + k/(3.71 d)) by bisection (no scipy)."""
     def f(lam):
         return lam ** -0.5 + 2.0 * math.log10(2.51 / (re * math.sqrt(lam)) + k_m / (3.71 * d_m))
-    lo, hi = 1e-6, 1e3
+    lo, hi = 1e-8, 1e12
     flo = f(lo)
     for _ in range(200):
         mid = math.sqrt(lo * hi)
